@@ -89,11 +89,21 @@ def parse_log(text, names):
                 st = "UNWIND"
             if "unsupported" in t.lower() and not any("assertion failed" in x or "attempt to" in x or "panicked" in x for x in fails):
                 st = "UNSUPPORTED"
+        # which classes of obligation failed: a panic-class failure is an overflow / shift / debug assertion / unwrap /
+        # index / division panic inside the real code; a functional failure is an assertion of the harness oracle
+        fclasses = set()
+        for x in fails:
+            if re.search(r"attempt to|overflow|panicked|unwrap|expect\(|index out of bounds|divide by zero|division by zero|unreachable|debug_assert|remainder with a divisor", x):
+                fclasses.add("panic")
+            elif "assertion failed" in x or "|" in x:
+                fclasses.add("functional")
+            else:
+                fclasses.add("functional")
         cov = re.findall(r"(\d+) of (\d+) cover properties satisfied", t)
         cover_ok = all(a == b2 for a, b2 in cov) if cov else True
         res[h] = {"harness": h, "status": st, "checks": checks, "n_failed": nfail, "time_s": tm,
                   "failed_checks": "\n".join(fails)[:3000], "summary": "\n".join(fails[:3]), "cover_ok": cover_ok,
-                  "stubs": re.findall(r"- Stub: (\S+)", t)}
+                  "stubs": re.findall(r"- Stub: (\S+)", t), "failed_classes": sorted(fclasses)}
     for n in names:
         if n not in res:
             res[n] = {"harness": n, "status": "MISSING", "checks": 0, "n_failed": 0, "time_s": 0.0, "failed_checks": "", "summary": ""}
@@ -155,10 +165,15 @@ def playback(harness, repo, work, root, timeout=1200):
     d = prepare(repo, work, root)
     cmd = ["cargo", "kani", "-Z", "function-contracts", "-Z", "stubbing", "-Z", "concrete-playback",
            "--concrete-playback=print", "--output-format=terse", "--harness", harness, "--exact"]
+    lockf = open(os.path.join(work, "kani.lock"), "w")
+    fcntl.flock(lockf, fcntl.LOCK_EX)
     try:
         p = subprocess.run(cmd, cwd=d, env=kani_env(work), stdout=subprocess.PIPE, stderr=subprocess.STDOUT, text=True, timeout=timeout)
     except subprocess.TimeoutExpired:
         return None, ""
+    finally:
+        fcntl.flock(lockf, fcntl.LOCK_UN)
+        lockf.close()
     out = p.stdout
     m = re.search(r"let concrete_vals: Vec<Vec<u8>> = vec!\[(.*?)\];", out, re.S)
     if not m:
